@@ -68,14 +68,21 @@ impl PatternLinter for ModalOf {
     }
 
     fn match_to_lint(&self, matched_toks: &[Token], source_chars: &[char]) -> Option<Lint> {
-        let modal_index = match matched_toks.len() {
+        // The whitespace between two words may be more than one token (a blank followed by a line
+        // break), so tell the alternatives apart by their words, not by the number of tokens.
+        let words: Vec<usize> = matched_toks
+            .iter()
+            .enumerate()
+            .filter(|(_, t)| !t.kind.is_whitespace())
+            .map(|(i, _)| i)
+            .collect();
+
+        let modal_word = match words.len() {
             // Without context, always an error from the start
-            3 => 0,
-            5 => {
+            2 => 0,
+            3 => {
                 // False positives: modal _ of _ course / adj. _ might _ of / art. _ might _ of
-                let w3_text = matched_toks
-                    .last()
-                    .unwrap()
+                let w3_text = matched_toks[words[2]]
                     .span
                     .get_content(source_chars)
                     .iter()
@@ -83,20 +90,22 @@ impl PatternLinter for ModalOf {
                 if w3_text.as_str() != "of" {
                     return None;
                 }
-                let w1_kind = &matched_toks.first().unwrap().kind;
+                let w1_kind = &matched_toks[words[0]].kind;
                 // the might of something, great might of something
                 if w1_kind.is_adjective() || w1_kind.is_determiner() {
                     return None;
                 }
                 // not a false positive, skip context before
-                2
+                1
             }
             // False positive: <word> _ might _ of _ course
-            7 => return None,
-            _ => unreachable!(),
+            _ => return None,
         };
 
-        let span_modal_of = matched_toks[modal_index..modal_index + 3].span().unwrap();
+        let modal_index = words[modal_word];
+        let of_index = words[modal_word + 1];
+
+        let span_modal_of = matched_toks[modal_index..=of_index].span().unwrap();
 
         let modal_have = format!(
             "{} have",
